@@ -60,12 +60,12 @@ EXPLANATION = (
 )
 NONTRIVIAL_RULE = "the CLI exited 0 and a machine was built from its output (or the config carried an unsupported key)"
 BOUNDS = {
+    "codegen_corpus": "the 104 Stately exports shipped under tests/tests_cli/stately_machines (index symbolic per item range) x 5 templates x 4 (async, file count) modes; deep fingerprint, no traces",
     "codegen_equiv": "C19 description family with the toggles of one group symbolic (others at baseline off/on) x guard form (9) x invoke form (6) x action form (2) x unsupported-key position (4) x hostile name (9) at position (5), two of these extra dimensions symbolic per item; 5 templates x async {default, yes, no} x file count {1,2} symbolic",
 }
 ASSUMPTIONS = [
     "the generator runs natively on the concrete JSON (its choice space is what the solver explores); scratch directories are created with tempfile and removed after each run",
     "behavioural identity is decided by the deep fingerprint of the built machine plus 5 traces (for configs without hostile names); the CLI's own verifier is NOT trusted (it compares guards by name and invokes by src)",
-    "the 104 Stately exports are outside this check (the repository's own tests cover them with the weaker verifier)",
     "black is called in-process (black.format_str, same version, same line length) instead of through `python -m black -`; isort as in the real pipeline",
 ]
 WALL_BUDGET = {"quick": 900.0, "thorough": 3300.0}
@@ -138,6 +138,7 @@ def set_params(p: Dict[str, Any]) -> None:
     c19.P = {}
     import xstate_statemachine.cli.postprocess as pp
 
+    logging.disable(logging.CRITICAL)
     if not isinstance(pp.subprocess, _InProcessBlack):
         pp.subprocess = _InProcessBlack()  # type: ignore[attr-defined]
 
@@ -421,6 +422,92 @@ def check_one(cfg: Dict[str, Any], has_uns: bool, template: str, fc: int, am: Op
         shutil.rmtree(d, ignore_errors=True)
 
 
+# ---------------------------------------------------------------------------
+# the shipped corpus of Stately exports
+# ---------------------------------------------------------------------------
+
+CORPUS_DIR = "/repo/tests/tests_cli/stately_machines"
+_CORPUS: Dict[str, Any] = {}
+_PLAIN = None
+
+
+def _plain_name(n: str) -> bool:
+    """lowerCamel or snake_case identifier: what logic auto-discovery can bind to a generated function."""
+    import keyword
+    import re
+
+    global _PLAIN
+    if _PLAIN is None:
+        _PLAIN = re.compile(r"[a-z][a-z0-9]*([A-Z][a-z0-9]*)*|[a-z][a-z0-9]*(_[a-z0-9]+)*")
+    return bool(_PLAIN.fullmatch(n)) and not keyword.iskeyword(n) and not re.search(r"[A-Z][A-Z]", n)
+
+
+def corpus() -> List[Tuple[str, Dict[str, Any], bool]]:
+    """[(file name, config, every referenced logic name is plain)] in sorted order."""
+    c = _CORPUS.get("list")
+    if c is None:
+        import glob
+
+        from xstate_statemachine import MachineLogic
+        from xstate_statemachine.logic_loader import LogicLoader
+        from xstate_statemachine.models import MachineNode
+
+        def extract_logic_names(cfg: Dict[str, Any]) -> Tuple[set, set, set]:
+            a: set = set()
+            g: set = set()
+            sv: set = set()
+            LogicLoader._extract_logic_from_node(MachineNode(config=copy.deepcopy(cfg), logic=MachineLogic()), a, g, sv)
+            return a, g, sv
+
+        c = []
+        for f in sorted(glob.glob(os.path.join(CORPUS_DIR, "*.json"))):
+            with open(f, encoding="utf-8") as fh:
+                cfg = json.load(fh)
+            try:
+                a, g, sv = extract_logic_names(cfg)
+                plain = all(_plain_name(n) for n in list(a) + list(g) + list(sv))
+            except Exception:  # noqa: BLE001
+                plain = True
+            c.append((os.path.basename(f), cfg, plain))
+        _CORPUS["list"] = c
+    return c
+
+
+def codegen_corpus(i: int, mode: int) -> bool:
+    """
+    pre: gate('codegen_corpus', i=i, mode=mode)
+    post: _
+    """
+    lo, hi = P["range"]
+    items_ = corpus()[lo:hi]
+    if not items_:
+        return verdict(True, nontrivial=False)
+    name, cfg, _plain = items_[pick(i, len(items_))]
+    template = TEMPLATES[P["tpl"]]
+    amode, fcount, regen = MODES[pick(mode, len(MODES))]
+    why = common.native(lambda: check_one(copy.deepcopy(cfg), False, template, fcount, amode, traces=False, regen=regen))
+    if why:
+        _note(f"{name} {template} async={amode} files={fcount}: {why}")
+    return verdict(why is None)
+
+
+def kf_corpus_json_unbindable(i: Any = 0, **_k: Any) -> bool:
+    """Known finding C17-json-templates-cannot-bind-non-identifier-names on the corpus: exports that reference a logic
+    name which is not a lowerCamel / snake_case identifier ('inline:...', '!x', 'PascalCase', ...)."""
+    lo, hi = P["range"]
+    items_ = corpus()[lo:hi]
+    bad = [k for k, (_n, _c, plain) in enumerate(items_) if not plain]
+    last = len(items_) - 1
+    for k in bad:
+        if i == k or (k == last and not (0 <= i < last)):
+            return True
+    return False
+
+
+def kf_applies_corpus_json(params: Dict[str, Any]) -> bool:
+    return params.get("tpl") in (3, 4) and "range" in params
+
+
 EXTRA = {"g": len(GUARDS), "i": len(INVOKES), "af": 2, "u": len(UNSUPPORTED), "h": len(HOSTILE), "hp": len(POSITIONS)}
 
 
@@ -466,7 +553,7 @@ def kf_applies_json_hostile(params: Dict[str, Any]) -> bool:
     return params.get("tpl") in (3, 4) and list(params.get("extra", [])) == ["h", "hp"]
 
 
-OBLIGATIONS = {"codegen_equiv": codegen_equiv}
+OBLIGATIONS = {"codegen_equiv": codegen_equiv, "codegen_corpus": codegen_corpus}
 PROBES = {"codegen_equiv": [{"x0": 2}, {"x0": 6}, {"x0": 7}, {"x0": 2, "x1": 2}, {"v0": 1, "x0": 2}, {"v0": 3, "x0": 3}, {"v0": 1, "x0": 6, "mode": 1}]}
 
 PAIRS_QUICK = [(["shape"], ["g"]), (["shape"], ["i"]), (["shape"], ["u"]), (["tg"], ["af"]), (["rootp"], ["g"]), (["multi"], ["i"]),
@@ -485,4 +572,10 @@ def items(tier: str, seed: int) -> List[Dict[str, Any]]:
                 out.append({"ob": "codegen_equiv", "params": {"vary": vary, "extra": extra, "base": base, "tpl": tpl},
                             "timeout": 600 if quick else 2400,
                             "label": f"codegen_equiv[{TEMPLATES[tpl]},{'+'.join(vary) or '-'}|{'+'.join(extra)},base={'on' if base else 'off'}]"})
+    n = len(corpus())
+    step = 26 if quick else 13
+    for tpl in range(len(TEMPLATES)):
+        for lo in range(0, n, step):
+            out.append({"ob": "codegen_corpus", "params": {"tpl": tpl, "range": [lo, min(n, lo + step)]}, "timeout": 600 if quick else 1800,
+                        "label": f"codegen_corpus[{TEMPLATES[tpl]},exports {lo}..{min(n, lo + step) - 1}]"})
     return out
